@@ -1,6 +1,6 @@
 """C07 - ring buffer capacity contract: constants/layout agreement, refusals
 without effect, mapping matches indexing."""
-from engine.qb import (AnalysisBroken, estr, unwrap, cval, walk, last_field, fields_of, callee_of, mentions_var, atoms_of)
+from engine.qb import (cmp_forms, AnalysisBroken, estr, unwrap, cval, walk, last_field, fields_of, callee_of, mentions_var, atoms_of)
 from rules.common import (field_is, is_shared_data_idx, shared_store, is_marker_get, is_marker_set, has_call, macro_named)
 from rules import c01
 
@@ -150,11 +150,12 @@ def r1(ctx, H):
     ks = []
     for b in al.blocks.values():
         c = unwrap(b.cond) if b.cond else None
-        if c and c.get('k') == 'bin' and c['op'] in ('<', '<=', '>', '>=') and has_call(c, 'qb_rb_space_free'):
-            for side in (c['l'], c['r']):
-                k = _plus_const(side, lambda v: estr(v) == lenv)
+        for (l, o, r) in cmp_forms(c) if c else []:
+            # oriented as  space_free OP len + K
+            if has_call(l, 'qb_rb_space_free'):
+                k = _plus_const(r, lambda v: estr(v) == lenv)
                 if k is not None:
-                    ks.append((k, c['op'], b))
+                    ks.append((k, o, b))
     if len(ks) != 2:
         raise AnalysisBroken('qb_rb_chunk_alloc: expected two comparisons space_free < len + K, found %d' % len(ks))
     ctx.check('R1', 'alloc-margins-equal', ks[0][0] == ks[1][0], al, 'both modes compare with len + %d' % ks[0][0],
